@@ -120,6 +120,18 @@ def _rng_sensitive(rng):
                      'LAYERING_PRMS': {'gmm_kwargs': {'delta_mul_gain': 1.0}}}}
 
 
+def _borderline(rng):
+    """Two overlapping sub-decks 2.3-3.2 sigma apart: the component count is borderline, so the
+    choice of information criterion (AIC / BIC) and the selection mode matter."""
+    std = rng.choice([30, 60])
+    ratio = rng.uniform(2.3, 3.2)
+    h = rng.choice([1500, 2000, 3000])
+    decks = [(h, std, 0.9), (h + ratio * std, std, 0.9)]
+    return {'rows': decks_rows(rng, 2, rng.randint(18, 45), decks),
+            'prms': {'MIN_SEP_VALS': [10, 10],
+                     'LAYERING_PRMS': {'gmm_kwargs': {'delta_mul_gain': 1.0}}}}
+
+
 def _no_hit(rng):
     return {'rows': decks_rows(rng, rng.choice([1, 2, 3]), rng.randint(5, 30), []), 'prms': {}}
 
@@ -192,7 +204,8 @@ def _demo_like(rng):
 
 RECIPES = {
     'single': _single, 'two-far': _two_far, 'merge': _merge, 'split': _split,
-    'merge+split': _merge_split, 'rng-sensitive': _rng_sensitive, 'no-hit': _no_hit,
+    'merge+split': _merge_split, 'rng-sensitive': _rng_sensitive, 'borderline': _borderline,
+    'no-hit': _no_hit,
     'single-hit': _single_hit, 'sparse': _sparse, 'vv': _vv, 'msa-crop': _msa_crop,
     'multi-hit': _multi_hit, 'many-sets': _many_sets, 'demo-like': _demo_like,
 }
